@@ -22,25 +22,9 @@ structure TopFacts (t : Idl) : Prop where
   iface : ifaceNameShape t.name = true
 
 theorem pkgIface_facts (n : Bytes) (h : ifaceNameShape n = true) :
-    hasUnderscore (pkgName n ++ str "Interface") = false ∧
     ∃ c r, pkgName n ++ str "Interface" = c :: r ∧ isLower c = true := by
-  cases n with
-  | nil => simp [ifaceNameShape] at h
-  | cons c s =>
-    simp only [ifaceNameShape, Bool.and_eq_true] at h
-    obtain ⟨h1, h2, h3⟩ := letter_facts c h.1
-    have ht := pkgName_tail_chars s h.2
-    rw [pkgName_cons_keep c s h1 h2]
-    refine ⟨?_, lowerByte c, _, rfl, h3⟩
-    have hu : ∀ x : UInt8, (isLower x || isDigit x) = true → x ≠ underscore := fun x hx =>
-      (lowerOrDigit_identChar' x hx).2
-    simp only [hasUnderscore, List.cons_append, List.contains_cons, Bool.or_eq_false_iff, beq_eq_false_iff_ne, ne_eq]
-    refine ⟨fun e => hu _ (by simp [h3]) e.symm, ?_⟩
-    rw [← Bool.not_eq_true]
-    intro hm
-    rcases List.mem_append.mp (List.contains_iff_mem.mp hm) with e | e
-    · exact hu _ (List.all_eq_true.mp ht _ e) rfl
-    · revert e; decide
+  obtain ⟨c, r, e, hc, _⟩ := pkgName_shape n h
+  exact ⟨c, r ++ str "Interface", by rw [e]; rfl, hc⟩
 
 
 /-- the names contributed by members: every one has the member-name shape and is not reserved -/
@@ -62,28 +46,22 @@ theorem head_ne_of_case (x y : Bytes) (hx : ∃ c r, x = c :: r ∧ isUpper c = 
   rw [this] at hc'
   exact absurd hc' (by simp)
 
-theorem importNames_lower (t : Idl) (f : GoFile) (hf : genFile t = some f) :
-    ∀ x ∈ f.importNames, x ∈ [str "varlink", str "context", str "json", str "fmt"] := by
-  obtain ⟨body, _, _, _, _, _, _, _, _, _, _, _, _, _, _, _, _, _, rfl⟩ := genFile_inv hf
-  intro x hx
-  simp only [GoFile.importNames, assembleFile, List.map_map, List.mem_map, Function.comp] at hx
-  obtain ⟨p, hp, rfl⟩ := hx
+theorem importNames_eq (t : Idl) (f : GoFile) (hf : genFile t = some f) :
+    f.importNames = [str "varlink", str "context"] ++ (if usesJson t then [str "json"] else [])
+      ++ (if usesFmt t then [str "fmt"] else []) := by
+  obtain ⟨_, _, _, _, _, _, _, _, _, _, _, _, _, _, _, _, _, _, rfl⟩ := genFile_inv hf
   have e1 : importName (unquote (str "\"github.com/varlink/go/varlink\"")) = str "varlink" := by decide
   have e2 : importName (unquote (str "\"context\"")) = str "context" := by decide
   have e3 : importName (unquote (str "\"encoding/json\"")) = str "json" := by decide
   have e4 : importName (unquote (str "\"fmt\"")) = str "fmt" := by decide
-  simp only [importList, List.mem_append, List.mem_singleton] at hp
-  rcases hp with ((hp | hp) | hp) | hp
-  · subst hp; simp [e1]
-  · split at hp
-    · simp only [List.mem_singleton] at hp; subst hp; simp [e2]
-    · simp at hp
-  · split at hp
-    · simp only [List.mem_singleton] at hp; subst hp; simp [e3]
-    · simp at hp
-  · split at hp
-    · simp only [List.mem_singleton] at hp; subst hp; simp [e4]
-    · simp at hp
+  simp only [GoFile.importNames, assembleFile, importList, List.map_append, List.map_cons, List.map_nil, e1, e2]
+  cases usesJson t <;> cases usesFmt t <;> simp [e3, e4]
+
+theorem importNames_lower (t : Idl) (f : GoFile) (hf : genFile t = some f) :
+    ∀ x ∈ f.importNames, x ∈ [str "varlink", str "context", str "json", str "fmt"] := by
+  rw [importNames_eq t f hf]
+  intro x hx
+  cases usesJson t <;> cases usesFmt t <;> simp at hx ⊢ <;> grind
 
 /-- **topLevelOk**: the package-level names of the emitted file are valid identifiers, pairwise distinct and
     distinct from the imported package names, provided no member is named `VarlinkCall`, `VarlinkInterface`
@@ -105,7 +83,7 @@ theorem topLevelOk_genFile (t : Idl) (f : GoFile) (h : TopFacts t) (hf : genFile
   have dAE := nodup_filters Member.name Member.isAlias Member.isError (fun m => (kinds_exclusive m).1) t.members h.unique
   have dAM := nodup_filters Member.name Member.isAlias Member.isMethod (fun m => (kinds_exclusive m).2.1) t.members h.unique
   have dEM := nodup_filters Member.name Member.isError Member.isMethod (fun m => (kinds_exclusive m).2.2) t.members h.unique
-  obtain ⟨pU, pc, pr, pe, pl⟩ := pkgIface_facts t.name h.iface
+  obtain ⟨pc, pr, pe, pl⟩ := pkgIface_facts t.name h.iface
   generalize hA : (t.members.filter Member.isAlias).map Member.name = A at *
   generalize hE : (t.members.filter Member.isError).map Member.name = E at *
   generalize hMn : (t.members.filter Member.isMethod).map Member.name = Mn at *
@@ -148,9 +126,10 @@ theorem topLevelOk_genFile (t : Idl) (f : GoFile) (h : TopFacts t) (hf : genFile
       · subst hx; decide
   -- group tags: names of different groups differ
   let tag : Bytes → Nat := fun x =>
-    if reservedAny.contains x then 4
+    if headLower x then 5
+    else if reservedAny.contains x then 4
     else if hasUnderscore x then (if endsWith (str "_methods") x then 2 else 3)
-    else if headLower x then 5 else 1
+    else 1
   have tagMember : ∀ x, memberNameShape x = true → x ∉ reservedAny → tag x = 1 := by
     intro x hx hr
     obtain ⟨hu, c, r, rfl, hc⟩ := member_shape_facts x hx
@@ -167,19 +146,16 @@ theorem topLevelOk_genFile (t : Idl) (f : GoFile) (h : TopFacts t) (hf : genFile
       rw [hall _ (List.contains_iff_mem.mp hc)] at this
       exact absurd this (by simp)
     have hr'' : n ++ str "_methods" ∉ reservedAny := by simpa using hr'
-    simp [tag, hr'', under _ ⟨n, rfl⟩, endsWith_append]
+    have hl : headLower (n ++ str "_methods") = false := by
+      obtain ⟨_, c, r, e, hc⟩ := member_shape_facts n (fM n hn).1
+      subst e
+      simpa [headLower] using (upper_facts c hc).2.1
+    simp [tag, hl, hr'', under _ ⟨n, rfl⟩, endsWith_append]
   have tagDE : tag (str "Dispatch_Error") = 3 := by decide
   have tagV : ∀ x ∈ [str "VarlinkCall", str "VarlinkInterface", str "VarlinkNew"], tag x = 4 := by decide
   have tagPI : tag pI = 5 := by
-    have hr' : reservedAny.contains pI = false := by
-      rw [← Bool.not_eq_true]; intro hc
-      have hall : ∀ y ∈ reservedAny, headLower y = false := by decide
-      have := hall _ (List.contains_iff_mem.mp hc)
-      rw [pe] at this
-      simp [headLower, pl] at this
     have hl : headLower pI = true := by rw [pe]; simpa [headLower] using pl
-    have hr'' : pI ∉ reservedAny := by simpa using hr'
-    simp [tag, hr'', pU, hl]
+    simp [tag, hl]
   have tagA : ∀ x ∈ A, tag x = 1 := fun x hx => tagMember x (fA x hx).1 (fA x hx).2
   have tagE : ∀ x ∈ E, tag x = 1 := fun x hx => tagMember x (fE x hx).1 (fE x hx).2
   have tagMn : ∀ x ∈ Mn, tag x = 1 := fun x hx => tagMember x (fM x hx).1 (fM x hx).2
